@@ -180,7 +180,8 @@ def lookup_in_range(db, cx):
         for (b2, i2, d) in f.events("def"):
             if d.get("kind") == "decl" and ev["callee"] in d.get("calls", []) and d.get("loc", "").split(":")[1] == ev["loc"].split(":")[1]:
                 idxv = d["var"]
-        if idxv:
+        two_point = any(e2["callee"].endswith("Interpolator::Interpolator") for (_b3, _i3, e2) in f.events("call"))
+        if idxv and two_point:
             acc = {}
             # locals that are just an index expression over the found bin (`auto hi = idx + 1;`)
             alias = {}
